@@ -409,9 +409,6 @@ func Run(opts *Options) (int, error) {
 						environ = val.environ
 						changed = val.changed
 						bump := false
-						if verifOn && len(val.denylist) > 0 {
-							verifCoord("deny", "ids", val.denylist, "compatible", val.revision.compatible(inputRevision))
-						}
 						if len(val.denylist) > 0 && val.revision.compatible(inputRevision) {
 							denyMutex.Lock()
 							for _, itemIndex := range val.denylist {
@@ -426,6 +423,9 @@ func Run(opts *Options) (int, error) {
 							bump = true
 						}
 						if bump {
+							if verifOn {
+								verifCoord("bump", "deny", val.denylist, "compatible", val.revision.compatible(inputRevision), "nth", verifNthString(val.nth))
+							}
 							patternCache = make(map[string]*Pattern)
 							cache.Clear()
 							inputRevision.bumpMinor()
